@@ -755,3 +755,14 @@ Proof.
   rewrite digits_value_dval; [rewrite dval_zeros, V; reflexivity| |exact F].
   intros H. apply app_eq_nil in H. destruct H as [_ H]. exact (NE H).
 Qed.
+
+(* C20 for the ninth exchange, at any position of the reply script (since the fix of F17): behind any number of progress reports
+   an abort of the query with a result code other than 0xB8 is what the query — and so the chain and the call — reports *)
+Theorem pending_abort_anywhere ixa sk pre c rest tail : c <> 184 ->
+  (forall j u, In (j, u) pre -> j <> ixa /\ In j sk) ->
+  run_handler (h_pending ixa sk) (fun _ => RErr EIncomplete) tt (pre ++ (ixa, VRec (VInt c :: rest)) :: tail) = RErr (EAborted c).
+Proof.
+  intros Hc Hp. apply abort_at_any_position.
+  - intros acc0 j u Hin. destruct (Hp j u Hin) as [H1 H2]. destruct acc0. rewrite (pending_progress_is_skipped ixa sk j u H1 H2). reflexivity.
+  - intros acc0. destruct acc0. apply pending_query_abort_surfaces. exact Hc.
+Qed.
